@@ -196,6 +196,7 @@ var soupVocabulary = []string{
 	"T", "F", "t", "f", "x", "var1", "x[0]", "x[0][1]", "_", "x[", "x[]", "x[99999999999999999999]", "T1", "Fx",
 	"\"abc\"", "\"\"", "\" \"", "\"a//b\"", "\"<>.\"", "\"\\\"", "\"\\n\"", "\"é\"", "\"日本\"", "\"unclosed", "\"two\nlines\"", "\"\xff\"", "\"", "'", "\\", "//", "// comment", "// comment\n", "//\n", "/", "/x",
 	"\n", "\r\n", "\r", "\t", " ", "  ", "\x00", "\xff", "\xc3", "é", "😀", "\ufeff",
+	"[//", "[ // x", "[2 //", "[2.. // c", "<L>[//", "<L> [ // c", "<A[2 // x",
 	"<A x", "<A x>", "<L <A x> <A x", "<L <U1 x> <A x", "<A[2] x", "<L x <A x", "<A x $", "<A x \"",
 	"<L <A x> <A[99999999999] x>>", "<A[99999999999] y> <A y>", "<L x x>", "<U1 v v>", "<L <U1 q> <I1 q>>", "<A[5] \"abc\">", "<A[2..3] z>", "<L[1] <L[1] <L[1] <B 1>>>>",
 }
